@@ -356,6 +356,25 @@ def c10_program_checks(v, tier, seed):
         progs.append(("E", ("E", ("E", ("C", neg, ident(0), ident(1)), ("C", neg, ident(2), ident(3))), ("C", neg, ident(4), ident(5))), "u"))
         progs.append(("B", "add", ("i", 1), ("G", ("E", ("C", neg, ident(0), ident(1)), ident(2)))))
         progs.append(("C", neg, ("&", ident(0), ident(1)), ("O", ident(2), ident(3))))
+    # operands of `&&` / `||` that are themselves conditionals, chains or truth operators (in groups): the result
+    # is a boolean whatever shape the operand's own code ends in, and only what is needed is evaluated
+    for op in ("&", "O"):
+        for neg in (0, 1):
+            cond = ("C", neg, ident(1), ident(2))
+            chain_tis = ("E", ("C", neg, ident(1), ident(2)), ("U", "tis", ident(3)))
+            chain_not = ("E", ("C", neg, ident(1), ident(2)), ("U", "not", ident(3)))
+            chain_val = ("E", ("C", neg, ident(1), ident(2)), ident(3))
+            for r_ in (("G", cond), ("G", chain_tis), ("G", chain_not), ("G", chain_val), ("G", ("G", cond))):
+                progs.append((op, ident(0), r_))          # as right operand
+                progs.append((op, r_, ident(4)))          # as left operand
+        for u in ("tis", "not"):
+            progs.append((op, ident(0), ("U", u, ident(1))))
+            progs.append((op, ("U", u, ident(0)), ident(1)))
+    for neg in (0, 1):
+        progs.append(("E", ("C", neg, ident(0), ident(1)), ("G", ("C", neg, ident(2), ident(3)))))     # u ?> b |> (f ?> d)
+        progs.append(("E", ("G", ("C", neg, ident(0), ident(1))), ident(2)))                           # (a ?> b) |> c
+        progs.append(("C", neg, ident(0), ("&", ident(1), ident(2))))                                  # t1 ?> t2 && a
+        progs.append(("E", ("C", neg, ident(0), ("O", ident(1), ident(2))), ident(3)))                 # t1 ?> t2 || a |> b
     cases = []
     vals = list(truth)
     for p in progs:
